@@ -57,7 +57,7 @@ class C19(Check):
                       "process lifecycle per command (SimProc)",
                       "poison-free np.empty (not altered here)"],
     }
-    tiers = {"quick": dict(runs=400, budget=70, batch=5),
+    tiers = {"quick": dict(runs=1200, budget=70, batch=5),
              "thorough": dict(runs=20000, budget=800, batch=5)}
     expected_probes = ["equivalence_compared", "repeat_convert",
                       "repeat_compute_scales", "sharded_program",
